@@ -25,6 +25,17 @@ class Base:
     def prepare(self, tier):
         pass
 
+    def begin_run(self):
+        pass
+
+    def end_run(self):
+        pass
+
+    def post_campaign(self, seed, tier, agg):
+        """Extra work in the campaign parent; returns (extra evidence,
+        list of harness errors, list of (violation, ops))."""
+        return {}, [], []
+
     def plan(self, rng, tier, idx):
         raise NotImplementedError
 
